@@ -23,32 +23,39 @@ def programs_from_tlc(res):
         m["funcs"][t["gen"]]["body"] = r["body"]
         wasm = wasmasm.assemble(m, entry=t["entry"])
         progs.append({"wasm": wasm.hex(), "entry": "main", "signext": wasmasm.uses_signext(m), "runs": r["runs"],
-                      "hostq": t.get("hostq", []), "body": r["body"]})
+                      "hostq": t.get("hostq", []), "body": r["body"], "valid": r.get("valid", True), "why": r.get("why", "")})
     return progs
 
 
 GEN_CFG = """SPECIFICATION %(spec)s
 CONSTANTS
-  Template <- TemplateT
-  GenIdx = 2
-  EntryIdx = 1
+  Template <- %(template)s
+  GenIdx = %(genidx)d
+  EntryIdx = %(entryidx)d
   Alphabet <- AlphabetOf
   MaxLen = %(maxlen)d
   ArgSets <- ArgsT
-  HostQ <- NoHostQ
+  HostQ <- %(hostq)s
   Fuel = %(fuel)d
   SignExt = TRUE
+  WithBad = %(bad)s
   Cfg = "%(cfg)s"
 INVARIANT Export
 CHECK_DEADLOCK FALSE
 """
 
 
-def gen_programs(ctx, cfg, maxlen, name=None, spec="GSpec", simulate=None, depth=None, workers=8, fuel=400, timeout=3000):
+def gen_programs(ctx, cfg, maxlen, name=None, spec="GSpec", simulate=None, depth=None, workers=8, fuel=600, timeout=3000, bad=False, host=False, invariants=()):
     name = name or "gen_%s_%d" % (cfg, maxlen)
     cfg_path = os.path.join(ctx.work, name + ".cfg")
     with open(cfg_path, "w") as f:
-        f.write(GEN_CFG % {"spec": spec, "maxlen": maxlen, "cfg": cfg, "fuel": fuel})
+        f.write(GEN_CFG % {"spec": spec, "maxlen": maxlen, "cfg": cfg, "fuel": fuel, "bad": "TRUE" if bad else "FALSE",
+                           "template": "TemplateH" if host else "TemplateT", "genidx": 3 if host else 2, "entryidx": 2 if host else 1,
+                           "hostq": "HostQT" if host else "NoHostQ"})
+        for inv in invariants:
+            f.write("INVARIANT %s\n" % inv)
+        if bad:
+            f.write("INVARIANT GenAgreesWithValidator\n")
     if simulate:
         results = ctx.tlc_parallel_sim(SPEC, "MC_WasmGen.tla", cfg_path, name, simulate, depth, procs=6, timeout=timeout)
     else:
@@ -58,6 +65,7 @@ def gen_programs(ctx, cfg, maxlen, name=None, spec="GSpec", simulate=None, depth
         progs += programs_from_tlc(res)
     for p in progs:
         p["family"] = name
+        p["ref_fuel"] = fuel
     return progs
 
 
@@ -102,7 +110,7 @@ def run_programs(ctx, progs, name, extra_args=None, chunk=2500, procs=8):
         part = progs[c:c + chunk]
         inp = os.path.join(ctx.work, "%s_%d.ndjson" % (name, c))
         outp = os.path.join(ctx.work, "%s_%d.res" % (name, c))
-        write_ndjson(inp, [{k: v for k, v in p.items() if k not in ("body", "family")} | {"code_len": p.get("code_len", 64)} for p in part])
+        write_ndjson(inp, [{k: v for k, v in p.items() if k not in ("body", "family", "sk", "script")} | {"code_len": p.get("code_len", 64)} for p in part])
         jobs.append((part, inp, outp))
 
     def one(job):
@@ -156,8 +164,15 @@ def merge_totals(a, b):
 
 
 def add_code_len(progs):
+    # fixed energy cost of the template around the generated body = the cheapest complete run of the batch
+    done = [r["out"] for p in progs for r in p.get("runs", []) if r["out"].get("status") == "done"]
+    base0 = min([o["w0"] for o in done], default=0)
+    base1 = min([o["w1"] for o in done], default=0)
+    for p in progs:
+        p["base_w0"], p["base_w1"] = base0, base1
     for p in progs:
         p["code_len"] = 40 + len(p.get("body", []))
+        p["body_len"] = len(p.get("body", []))
     return progs
 
 
@@ -165,16 +180,19 @@ def run(ctx):
     quick = ctx.tier == "quick"
     ctx.build("engine")
     prop = ctx.prop
+    if prop == "C09":
+        return run_c09(ctx)
     w = 8 if quick else 16
     ctx.assumptions += [
         "TLC 1.8 and the CommunityModules are trusted; the Wasm assembler checks/wasmasm.py (~230 lines) and the harness are trusted",
         "programs are instances of one module template (wrapper f, generated g, helpers h and k, 2 globals, 1-2 memory pages, 4-entry table) with generated bodies over focused alphabets",
         "i64 arithmetic is exact in the reference (limb arithmetic), but only boundary operands are enumerated",
     ]
-    lens = {"ctl": 6, "ctl2": 5, "loop": 5, "mem": 4, "call": 4, "i64": 4} if quick else {"ctl": 7, "ctl2": 6, "loop": 6, "mem": 5, "call": 5, "i64": 5}
+    lens = {"ctl": 6, "ctl2": 5, "loop": 5, "brif": 7, "brif2": 8, "mem": 4, "call": 4, "i64": 4} if quick else {"ctl": 7, "ctl2": 6, "loop": 6, "brif": 8, "brif2": 9, "mem": 5, "call": 5, "i64": 5}
     from concurrent.futures import ThreadPoolExecutor
     jobs = [dict(cfg=cfg, maxlen=ml, workers=4) for cfg, ml in lens.items()]
     jobs.append(dict(cfg="alu", maxlen=0, name="alu_vectors", spec="FSpec", workers=6))
+    jobs.append(dict(cfg="struct", maxlen=0, name="structured", spec="FSpec", workers=6))
     jobs.append(dict(cfg="witness", maxlen=0, name="witnesses", spec="FSpec", workers=1))
     with ThreadPoolExecutor(max_workers=4) as ex:
         results = list(ex.map(lambda kw: gen_programs(ctx, **kw), jobs))
@@ -251,3 +269,76 @@ def replay(prop, path, seed):
         return 1 if ctx.violations else 0
     print("replay kind %s: re-run the check" % rp["kind"])
     return 2
+
+
+def run_c09(ctx):
+    import wasm_limits
+    quick = ctx.tier == "quick"
+    w = 8 if quick else 16
+    ctx.assumptions += [
+        "TLC 1.8 and the CommunityModules are trusted; the Wasm assembler checks/wasmasm.py, the skeleton builder checks/wasm_limits.py and the harness are trusted",
+        "byte strings without a verdict (mutated modules) are only checked for totality and safe execution, not for the accept/reject decision",
+    ]
+    # (a) typing: every valid body and every minimally ill-typed or truncated body over the validation alphabet
+    progs = gen_programs(ctx, "val", 3 if quick else 4, bad=True, workers=w)
+    ctx.exhaustive = True
+    add_code_len(progs)
+    nvalid = sum(1 for p in progs if p["valid"])
+    if nvalid < 20 or len(progs) - nvalid < 1000:
+        raise ToolError("too few validation vectors: %d valid, %d invalid" % (nvalid, len(progs) - nvalid))
+    tot = run_programs(ctx, progs, "typing", extra_args=["--nobudget"])
+    ctx.extra["typing_vectors"] = {"valid": nvalid, "invalid": len(progs) - nvalid}
+    # (b) module-level restrictions at limit-1 / limit / limit+1
+    r = ctx.tlc(SPEC, "ModuleLimits.tla", "ModuleLimits_exh.cfg", workers=w, timeout=1800)
+    lim = []
+    for s in r.replays:
+        v = json.loads(s)
+        wasm, entry, nparams = wasm_limits.build_skeleton(v["sk"])
+        lim.append({"wasm": wasm.hex(), "entry": entry, "signext": False, "valid": v["valid"], "body": [], "family": "limits",
+                    "sk": v["sk"], "runs": [{"args": [[0, 0]] * nparams, "out": {"status": "any"}}] if v["valid"] else []})
+    t2 = run_programs(ctx, lim, "limits", extra_args=["--nobudget"])
+    ctx.extra["limit_vectors"] = {"valid": sum(1 for p in lim if p["valid"]), "invalid": sum(1 for p in lim if not p["valid"])}
+    merge_totals(tot, t2)
+    # (c) totality: mutation scripts applied to valid modules
+    scripts = []
+    for res in ctx.tlc_parallel_sim(SPEC, "WasmMutate.tla", "WasmMutate.cfg", "mutate", 600 if quick else 30000, 4, procs=4):
+        scripts += [json.loads(s) for s in res.replays]
+    seeds = [p for p in progs if p["valid"]][:12] + [p for p in lim if p["valid"]][:12]
+    muts = []
+    seen = set()
+    for i, sc in enumerate(scripts):
+        seed = seeds[i % len(seeds)]
+        mb = wasm_limits.apply_script(bytes.fromhex(seed["wasm"]), sc)
+        if mb in seen:
+            continue
+        seen.add(mb)
+        muts.append({"wasm": mb.hex(), "entry": seed["entry"], "signext": False, "valid": None, "body": seed.get("body", []), "family": "mutant",
+                     "script": sc, "runs": [{"args": (seed["runs"][0]["args"] if seed["runs"] else []), "out": {"status": "any-metered"}}]})
+    t3 = run_programs(ctx, muts, "mutants", extra_args=["--nobudget"])
+    ctx.extra["mutated_modules"] = len(muts)
+    merge_totals(tot, t3)
+    ctx.extra["engine_runs"] = tot["runs"]
+    ctx.extra["outcome_histogram"] = tot["by_action"]
+    ctx.evaluations += tot["runs"] + len(progs) + len(lim) + len(muts)
+    if tot["by_action"].get("rejected", 0) < 1000 or tot["by_action"].get("any:done", 0) + tot["by_action"].get("any:trap", 0) < 100:
+        raise ToolError("vacuous run: %s" % tot["by_action"])
+    # canary: flip the predicted verdict of one vector
+    q = json.loads(json.dumps({k: v for k, v in progs[0].items() if k not in ("body", "family")}))
+    q["valid"] = not q["valid"]
+    q["runs"] = []
+    inp = os.path.join(ctx.work, "canary.ndjson")
+    outp = os.path.join(ctx.work, "canary.res")
+    write_ndjson(inp, [q])
+    ctx.harness("engine", ["wasm-run", inp, outp, "--nobudget"])
+    if not [x for x in read_ndjson(outp) if not x.get("summary")]:
+        raise ToolError("canary: flipped verdict not flagged")
+    ctx.extra["canary"] = "flipped validation verdict flagged"
+    bad = [p for p in progs if p["why"] == "bad"]
+    ctx.sample({"kind": "minimally ill-typed body (valid prefix + one rejected instruction + closing ends)", "body": show_body(bad[len(bad) // 2]["body"]), "expected": "rejected by validate_module under V0 and V1"})
+    ctx.sample({"kind": "limit vector", "skeleton": lim[len(lim) // 2]["sk"], "valid": lim[len(lim) // 2]["valid"]})
+    if muts:
+        ctx.sample({"kind": "mutation script applied to a valid module (totality)", "script": muts[0]["script"]})
+    ctx.rule = ("typing vectors: all valid prefixes over a 45-instruction alphabet up to the length bound, each completed (valid) or extended by one instruction that the "
+                "WasmValidate state machine rejects (then closed syntactically) or left unclosed; limit vectors: a valid baseline skeleton with one or two parameters moved to "
+                "limit-1/limit/limit+1 or to a forbidden construct; mutants: TLC-simulated byte-level mutation scripts applied to valid modules. Verdicts are compared under both "
+                "ValidationConfigs and with metering; accepted modules are compiled and executed with the H2 bounds assertions on. distinct = distinct module binaries")
